@@ -73,6 +73,8 @@ type Ex struct {
 	// Preset, if set, is what the default output puts into Package.Extractor before returning
 	// (a package object that arrives already attributed, e.g. taken from a cache).
 	Preset extractor.Extractor
+	// OnlyFinding makes the default output carry a finding and NO package.
+	OnlyFinding bool
 	// EmitFinding makes the default output carry one finding (advisory reference = N, Extra = path)
 	// next to the package.
 	EmitFinding bool
@@ -128,7 +130,10 @@ func (e *Ex) Extract(ctx context.Context, in *filesystem.ScanInput) (inventory.I
 		return inventory.Inventory{}, rerr
 	}
 	inv := inventory.Inventory{Packages: []*extractor.Package{{Name: e.N + "|" + in.Path, Version: "1", Locations: []string{in.Path}, Extractor: e.Preset}}}
-	if e.EmitFinding {
+	if e.OnlyFinding {
+		inv.Packages = nil
+	}
+	if e.EmitFinding || e.OnlyFinding {
 		inv.Findings = []*detector.Finding{{Adv: &detector.Advisory{ID: &detector.AdvisoryID{Publisher: "ex", Reference: e.N}, Title: "t-" + e.N}, Extra: in.Path}}
 	}
 	return inv, nil
